@@ -268,8 +268,9 @@ def judge(case):
     if cls == "polyhedron-open":
         ph = gen.rand_polyhedron(r, small=r.random() < 0.6)
         faces = [list(f) for f in ph[2]]
-        form = r.randrange(6)
-        lab = ("face-removed", "two-faces-removed", "face-translated", "dangling-face", "two-bodies", "duplicated-face")[form]
+        form = r.randrange(8)
+        lab = ("face-removed", "two-faces-removed", "face-translated", "dangling-face", "two-bodies", "duplicated-face",
+               "two-loose-polygons", "open-body-plus-loose-polygon")[form]
         if form == 0:
             faces.pop(r.randrange(len(faces)))
         elif form == 1:
@@ -301,8 +302,18 @@ def judge(case):
             ph2 = gen.rand_polyhedron(r, small=True)
             shift = (F(40), F(0), F(0))
             faces += [[K.add(v, shift) for v in f] for f in ph2[2]]
-        else:
+        elif form == 5:
             faces.append(list(faces[r.randrange(len(faces))]))
+        elif form == 6:
+            # two disjoint polygons: V - E + F = n - n + 1 twice = 2, yet nothing is closed
+            f = faces[r.randrange(len(faces))]
+            n = gen._reduce(K.polygon_normal(f))
+            faces = [list(f), [K.add(v, K.mul(n, r.choice((1, 2, F(1, 2))))) for v in f]]
+        else:
+            # a body without one face (V-E+F = 1) plus one loose polygon far away (+1)
+            faces.pop(r.randrange(len(faces)))
+            g = gen.rand_polygon(r, 3, 5, 3)
+            faces.append([K.add(v, (F(40), F(0), F(0))) for v in g[1]])
         r.shuffle(faces)
 
         def build():
